@@ -137,6 +137,9 @@ def rule_handover(chk):
     capname = caps[0].ast.targets[0].id
     fresh_capture = isinstance(caps[0].ast.value, ast.Call)  # list(...) snapshot is fine too
     okcap = cfg.precedes(caps, repl)[0] and all(cfg.edge_dominates(ft, flab, n) for n in caps + repl)
+    chk.req(not fresh_capture, "C12.handover", "Destinations.add:redelivers-from-the-live-buffer", chk.where(add, caps[0].lineno),
+            good="the re-delivery loop iterates the buffer's own list, so messages appended by concurrent loggers while it runs are still delivered",
+            fail="the buffer is snapshotted (%s) before re-delivery: every message a concurrent logger appends to the old buffer after the copy is delivered nowhere" % unparse(caps[0].ast.value)[:60])
     chk.req(okcap, "C12.handover", "Destinations.add:buffer-captured-before-swap", chk.where(add, caps[0].lineno),
             good="%s captured before _destinations is replaced, on the first-add arm only" % capname,
             fail="the buffered messages are not captured before the destination list is replaced (they are lost)")
